@@ -190,6 +190,43 @@ Qed.
 Lemma skipn_py {A} (l : list A) (n : nat) : py_slice_from l (N.of_nat n) = skipn n l.
 Proof. unfold py_slice_from. rewrite Nat2N.id. reflexivity. Qed.
 
+(** [s.find('(')] with the fallback to the last index is the enumerate-and-break loop *)
+Lemma py_find_from_spec c : forall s i,
+  match py_find_from c s i with
+  | Some j => exists k, j = i + N.of_nat k /\ for_break (fun x => x =? c) s = Some k
+  | None => for_break (fun x => x =? c) s = match s with [] => None | _ :: _ => Some (length s - 1)%nat end
+  end.
+Proof.
+  induction s as [|x r IH]; intros i; cbn [py_find_from]; [reflexivity|].
+  assert (FB : for_break (fun y => y =? c) (x :: r) =
+               if x =? c then Some O else match r with [] => Some O | _ :: _ => option_map S (for_break (fun y => y =? c) r) end)
+    by (destruct r; reflexivity).
+  rewrite FB. destruct (x =? c).
+  - exists O. split; [lia|reflexivity].
+  - specialize (IH (i + 1)). destruct (py_find_from c r (i + 1)) as [j|].
+    + destruct IH as (k & -> & Hk). exists (S k). split; [lia|]. destruct r; [discriminate|]. rewrite Hk. reflexivity.
+    + destruct r as [|y r']; [reflexivity|]. rewrite IH. cbn [option_map length]. f_equal. lia.
+Qed.
+
+Ltac parse_rest proof mand i :=
+  replace (N.of_nat i + 1) with (N.of_nat (i + 1)) by lia; rewrite skipn_py;
+  rewrite (enum_break_loop _ (fun c => negb (is_space c))) by (intros; cbv beta; first [reflexivity | destruct (is_space _); reflexivity]);
+  let j := fresh "j" in
+  destruct (for_break (fun c => negb (is_space c)) (skipn (i + 1) proof)) as [j|]; [|reflexivity];
+  cbv beta iota zeta; rewrite N.add_0_l;
+  replace (N.of_nat i + N.of_nat j + 1) with (N.of_nat (i + j + 1)) by lia; rewrite skipn_py;
+  rewrite numbered_len;
+  match goal with |- context [py_for_enum ?b 0 _ _] =>
+    let n' := fresh "n'" in let b' := fresh "b'" in let E := fresh "E" in
+    destruct (label_loop b ltac:(intros; reflexivity) (skipn (i + j + 1) proof) 0 None mand []) as (n' & b' & E);
+    unfold str in *; rewrite E; clear E end;
+  change (N.to_nat 0) with O;
+  let c := fresh "c" in let s := fresh "s" in
+  destruct (skipn (i + j + 1) proof) as [|c s]; [reflexivity|];
+  let ls := fresh "ls" in let l := fresh "l" in
+  destruct (lab_loop (c :: s) [] 0) as [ls l]; cbn [fst snd];
+  do 2 f_equal; lia.
+
 Theorem gen_parse_lemmas_eq : forall proof mand,
   gen_parse_lemmas proof (numbered 1 mand) =
   match parse_lemmas proof with
@@ -198,21 +235,20 @@ Theorem gen_parse_lemmas_eq : forall proof mand,
   end.
 Proof.
   intros proof mand. unfold gen_parse_lemmas, parse_lemmas.
-  rewrite (enum_break_loop _ (fun c => c =? 40)) by (intros; cbv beta; first [reflexivity | destruct (_ =? 40); reflexivity]).
-  destruct (for_break (fun c => c =? 40) proof) as [i|]; [|reflexivity].
-  cbv beta iota. rewrite N.add_0_l.
-  replace (N.of_nat i + 1) with (N.of_nat (i + 1)) by lia. rewrite skipn_py.
-  rewrite (enum_break_loop _ (fun c => negb (is_space c))) by (intros; cbv beta; first [reflexivity | destruct (is_space _); reflexivity]).
-  destruct (for_break (fun c => negb (is_space c)) (skipn (i + 1) proof)) as [j|]; [|reflexivity].
-  cbv beta iota zeta. rewrite N.add_0_l.
-  replace (N.of_nat i + N.of_nat j + 1) with (N.of_nat (i + j + 1)) by lia. rewrite skipn_py.
-  rewrite numbered_len.
-  match goal with |- context [py_for_enum ?b 0 _ _] => set (body := b) end.
-  destruct (label_loop body ltac:(intros; reflexivity) (skipn (i + j + 1) proof) 0 None mand []) as (n' & b' & E).
-  unfold str in *. rewrite E. clear E. change (N.to_nat 0) with O.
-  destruct (skipn (i + j + 1) proof) as [|c s]; [reflexivity|].
-  destruct (lab_loop (c :: s) [] 0) as [ls l]. cbn [fst snd].
-  do 2 f_equal. lia.
+  first
+  [ (* the opening parenthesis is searched by an enumerate loop with break *)
+    rewrite (enum_break_loop _ (fun c => c =? 40)) by (intros; cbv beta; first [reflexivity | destruct (_ =? 40); reflexivity]);
+    destruct (for_break (fun c => c =? 40) proof) as [i|]; [|reflexivity];
+    cbv beta iota; rewrite N.add_0_l; parse_rest proof mand i
+  | (* ... or by str.find with a fallback to the last index *)
+    destruct proof as [|c0 p0]; [reflexivity|];
+    pose proof (py_find_from_spec 40 (c0 :: p0) 0) as F; unfold py_find;
+    destruct (py_find_from 40 (c0 :: p0) 0) as [j|]; cbn [is_none]; cbv beta iota;
+    [ let k := fresh "k" in let Hk := fresh "Hk" in
+      destruct F as (k & -> & Hk); rewrite Hk; cbv beta iota; rewrite N.add_0_l; parse_rest (c0 :: p0) mand k
+    | rewrite F; cbv beta iota;
+      replace (py_len (c0 :: p0) - 1) with (N.of_nat (length (c0 :: p0) - 1)) by (unfold py_len; cbn [length]; lia);
+      parse_rest (c0 :: p0) mand (length (c0 :: p0) - 1)%nat ] ].
 Qed.
 
 (* ------------------------------------------------------------------------------------------ *)
